@@ -224,6 +224,7 @@ def rejection(ctx, drv, n):
 
 def correspondence(ctx):
     drv = common.Driver("drv_c06")
+    c05.ensure_tables(ctx, "drv_c06", "Bermuda.Properties.C06")
     with Scratch() as scratch:
         history(ctx, drv, scratch)
         n = 500 if ctx.thorough else 60
